@@ -3,7 +3,7 @@
 tier=$1; shift
 cd "$(dirname "$0")/.."
 for s in "$@"; do
-  for c in C01 C02 C03 C04 C05 C06 C07 C08 C09 C10 C11 C12 C13 C14 C15 C16 C17 C18 C19 C20; do
+  for c in ${CHECKS:-C01 C02 C03 C04 C05 C06 C07 C08 C09 C10 C11 C12 C13 C14 C15 C16 C17 C18 C19 C20}; do
     out=$(VERIF_SEED=$s ./check $c --tier $tier 2>&1); rc=$?
     echo "seed=$s $c rc=$rc $(echo "$out" | grep -E "^$c $tier" | cut -c1-120)"
     [ $rc -ne 0 ] && echo "$out" | grep -E "VIOLATION|monitor=|INCONCLUSIVE" | head -6 | cut -c1-400
